@@ -28,6 +28,7 @@ fn main() {
             let reps: u64 = args.get(3).and_then(|s| s.parse().ok()).unwrap_or(6);
             let mut out: Vec<Value> = Vec::new();
             gen::run_values(seed, reps, &mut out);
+            probe::held_lock_records(seed, &mut out);
             for r in out { println!("{}", r); }
         },
         "bulk" => {
